@@ -4467,6 +4467,7 @@ func (p *printer) printStmt(stmt js_ast.Stmt, flags printStmtFlags) {
 			p.options.Indent++
 			p.printIndent()
 		}
+		p.forOfInitStart = len(p.js) // "for ((let)[0] in x)" must not become "for (let[0] in x)"
 		p.printForLoopInit(s.Init, forbidIn)
 		p.printSpace()
 		p.printSpaceBeforeIdentifier()
@@ -4649,6 +4650,8 @@ func (p *printer) printStmt(stmt js_ast.Stmt, flags printStmtFlags) {
 			p.printIndent()
 		}
 		if init.Data != nil {
+			// "for ((let)[0];;)" must not become "for (let[0];;)"
+			p.forOfInitStart = len(p.js)
 			p.printForLoopInit(init, forbidIn)
 		}
 		p.print(";")
